@@ -188,6 +188,15 @@ var perturbations = []perturb{
 		c := m.LogConfigs.Config[i]
 		c.ExtKeyUsages = append([]string{"ServerAuth"}, "NoSuchUsage")
 	}},
+	{"eku.unknown-before-any", "reject", func(w *CfgWorld, m *configpb.LogMultiConfig, i int) {
+		// "Any" lifts the restriction, it does not make an unknown name known
+		m.LogConfigs.Config[i].ExtKeyUsages = [][]string{{"NoSuchUsage", "Any"}, {"ClientAuth", "TimeStomping", "Any"}, {"any", "Any"}}[w.s.T.Intn(3)]
+	}},
+	{"eku.unknown-after-any", "unspecified", func(w *CfgWorld, m *configpb.LogMultiConfig, i int) {
+		// the shipped validator stops reading at "Any"; whether names after it still have to be known is not
+		// something the statement settles
+		m.LogConfigs.Config[i].ExtKeyUsages = []string{"ServerAuth", "Any", "NoSuchUsage"}
+	}},
 	{"eku.case", "reject", func(w *CfgWorld, m *configpb.LogMultiConfig, i int) {
 		m.LogConfigs.Config[i].ExtKeyUsages = []string{"serverauth"}
 	}},
